@@ -113,6 +113,34 @@ theorem runM_forLoop {V : Type} (Inv : Locals V → Prop) (step : V → σ → O
       exact runM_forLoop Inv step body xs loc1 st1
         (fun loc y st hy => hbody loc y st (List.mem_cons_of_mem _ hy)) hinv1
 
+/-- `runM_forLoop` when the fold is known to succeed -/
+theorem runM_forLoop_some {V : Type} {Inv : Locals V → Prop} {step : V → σ → Option σ}
+    {body : Locals V → V → SM σ (Ctl V × Locals V)} {xs : List V} {loc : Locals V} {st st' : σ}
+    (hfold : xs.foldlM (fun st x => step x st) st = some st')
+    (hbody : ∀ loc x st, x ∈ xs → Inv loc →
+      match step x st with
+      | some st' => ∃ loc', runM (body loc x) st = (.ok (.next, loc'), st') ∧ Inv loc'
+      | none => ∃ e st', runM (body loc x) st = (.error e, st'))
+    (hinv : Inv loc) :
+    ∃ loc', runM (forLoop body xs loc) st = (.ok (.next, loc'), st') ∧ Inv loc' := by
+  have h := runM_forLoop Inv step body xs loc st hbody hinv
+  rw [hfold] at h
+  exact h
+
+/-- `runM_forLoop` when some pass raises -/
+theorem runM_forLoop_none {V : Type} {Inv : Locals V → Prop} {step : V → σ → Option σ}
+    {body : Locals V → V → SM σ (Ctl V × Locals V)} {xs : List V} {loc : Locals V} {st : σ}
+    (hfold : xs.foldlM (fun st x => step x st) st = none)
+    (hbody : ∀ loc x st, x ∈ xs → Inv loc →
+      match step x st with
+      | some st' => ∃ loc', runM (body loc x) st = (.ok (.next, loc'), st') ∧ Inv loc'
+      | none => ∃ e st', runM (body loc x) st = (.error e, st'))
+    (hinv : Inv loc) :
+    ∃ e st', runM (forLoop body xs loc) st = (.error e, st') := by
+  have h := runM_forLoop Inv step body xs loc st hbody hinv
+  rw [hfold] at h
+  exact h
+
 /-- final state of a run that did not raise -/
 def stOut {α : Type} (r : Except String α × σ) : Option σ := match r.1 with | .ok _ => some r.2 | .error _ => none
 
@@ -192,6 +220,6 @@ macro "pystep" "[" ls:simpLemma,* "]" : tactic =>
   `(tactic| (rw [runM_block_cons]
              conv in (runM (evalStmt _ _ _) _) =>
                simp [evalStmt, evalExpr, evalBlock, evalArgs, evalKws, assignTo, $ls,*]
-             dsimp only))
+             try dsimp only))
 
 end Viv.Py
